@@ -17,6 +17,7 @@ def P(d, t, a, n):
 
 
 EXTRA_STRUCTS = [
+    {"k": "struct", "name": "OP8", "fields": [{"type": "interface", "count": 1, "name": f"o{i}"} for i in range(8)]},
     {"k": "struct", "name": "OP2", "fields": [{"type": "interface", "count": 1, "name": "first"},
                                               {"type": "interface", "count": 1, "name": "second"},
                                               {"type": "uint64", "count": 4, "name": "pad"}]},
@@ -32,6 +33,10 @@ def extra_lists():
             out.append([P(d, "OP2", None, "p"), P(d, "IT", n, "rest")])
             out.append([P(d, "IT", n, "rest"), P(d, "OP2", None, "p")])
             out.append([P(d, "OB", None, "p"), P(d, "interface", n + 1, "rest")])
+        # the same object-bearing struct type twice (8 + 8 objects), and once with other objects
+        out.append([P(d, "OP8", None, "left"), P(d, "OP8", None, "right")])
+        out.append([P(d, "OP8", None, "left"), P(d, "interface", None, "a"), P(d, "OP8", None, "right")])
+        out.append([P(d, "OP8", None, "left"), P(d, "OP2", None, "mid"), P(d, "interface", None, "a")])
         # 15 buffers plus small values of the same direction and none of the other
         for small in (("uint32", None), ("S4", None), ("uint8", None)):
             out.append([P(d, small[0], small[1], "status")] + [P(d, "uint8", "unbounded", f"b{i}") for i in range(15)])
